@@ -312,3 +312,8 @@ CHECK_DEADLOCK FALSE
                          "allowed answers computed by TLC; each concretised with a position class (offset 0, every offset -7..+1 around a read-buffer boundary, mid, end of file), "
                          "buffer size, filler class, short/4096-byte blocks and API (bytes/file/path); distinct = scenario x variant with at least one block")
     ctx.exhaustive = not q
+
+    # the command line face of extraction: beacon-dump as a state machine over its arguments (Cli.tla)
+    from vt.checks import xcli
+
+    xcli.cli_part(ctx)
